@@ -1,3 +1,4 @@
+import HioModel.Gen.FilerConsts
 /-!
 # Model of `hio.base.filing.Filer` path construction, `remake`, `reopen`, `close`, `_clearPath`
 (faithful to the current source, including the fix that rejects escaping `..`)
@@ -82,8 +83,10 @@ def relWalk : List Seg → List Seg → Option (List Seg)
       | _ :: t => relWalk t ss)
     else relWalk (s :: st) ss
 
+/-- `CleanTailDirPath if clean else TailDirPath`, split at the separator: regenerated from the class on every run
+(`HioModel/Gen/FilerConsts.lean`); the containment proofs need both to be non-empty lists of ordinary segments -/
 def tailSegs (clean : Bool) : List Seg :=
-  if clean then [[104, 105, 111], [99, 108, 101, 97, 110]] else [[104, 105, 111]]     -- "hio/clean" | "hio"
+  if clean then Gen.filerCleanTail else Gen.filerTail
 
 /-- `os.path.abspath(os.path.join(head, tail, base, name))` for a normalised absolute `head` -/
 def fullPath (head : P) (clean : Bool) (base name : List Nat) : P :=
